@@ -52,6 +52,12 @@ Definition honest_input (e : env) (sid : N) (k : skey) (salt : list wbyte) (tail
 Definition set_nth_w (i : nat) (x : wbyte) (l : list wbyte) : list wbyte :=
   firstn i l ++ match skipn i l with [] => [] | _ :: r => x :: r end.
 
+(* the harness flips every bit of the byte (b xor 255): a plain salt byte keeps being a plain
+   byte with the flipped value; a ciphertext or tag byte stops being what was sealed *)
+Definition flip_w (w : wbyte) : wbyte := match wt w with TRaw => raw (N.lxor (wv w) 255) | _ => raw 255 end.
+Definition flip_nth_w (i : nat) (l : list wbyte) : list wbyte :=
+  firstn i l ++ match skipn i l with [] => [] | x :: r => flip_w x :: r end.
+
 Definition input_of (e : env) (sid : N) (k : kind) : env * list wbyte :=
   match k with
   | KHonest c s ss tail => let key := mk_key c s in let '(e1, salt) := salt_of e sid key ss in honest_input e1 sid key salt tail
@@ -63,7 +69,7 @@ Definition input_of (e : env) (sid : N) (k : kind) : env * list wbyte :=
   | KCorrupt c s seed off =>
       let key := mk_key c s in
       let '(e1, w) := honest_input e sid key (raws (gb (N.of_nat (salt_size (k_cipher key))) seed)) 20 in
-      (e1, set_nth_w (N.to_nat off) (raw 255) w)
+      (e1, flip_nth_w (N.to_nat off) w)
   end.
 
 Definition order_of (cl : clist) : list (bytes * N) := map (fun en => (e_id en, e_last en)) (items cl).
